@@ -32,6 +32,14 @@ def gen_case(rng, tier, i):
     from vlib.proggen import gen_program
     from vlib.refdevs import Ref, tnum
     clock = ["float", "int", "duration"][i % 3]
+    if i < (3 if tier == "quick" else 12):
+        # a handler ends the current run and re-issues it with a nearer bound: stop(); run_up_to(t) from inside the run
+        # (each of these cases costs the library's 1 s self-wait of stop() on the run thread)
+        lit = (lambda v: [float(v), "s"]) if clock == "duration" else (lambda v: int(v) if clock == "int" else float(v))
+        k = 2 + (i // 3) % 3
+        prog = {"clock": clock, "rep": {"start": lit(0), "warmup": lit(0), "length": lit(20)},
+                "init": [["abs", lit(t), 5, f"a{t}"] for t in range(1, 11)], "handlers": {f"a{k}": [["rebound", lit(k + 3), ["run_up_to", "run_up_to_including"][(i // 3) % 2]]]}}
+        return {"fam": "rebound", "prog": prog, "at": k, "bound": k + 3}
     prog = gen_program(rng, clock=clock, n_events=rng.randint(4, 30), with_bad=rng.random() < 0.3, bigint=True)
     ref = Ref(prog)
     ref.initialize()
@@ -94,9 +102,59 @@ def shard_teardown(tier, ctx):
     simharness.cleanup_all()
 
 
+def _rebound(case, ctx):
+    from vlib.simharness import Harness
+    prog = case["prog"]
+    h = Harness(prog)
+    res = {}
+
+    def on_action(model, a, parent):
+        res["stop"] = h.cmd("stop")
+        res["first_after"] = len(h.hlog)
+        res["rerun"] = h.cmd(a[2], a[1])
+    h.on_action = on_action
+    name = prog["handlers"][f"a{case['at']}"][0][2]
+    where = {"clock": prog["clock"], "handler_at": case["at"], "new_bound": case["bound"], "command": name}
+    try:
+        if h.cmd("initialize") != "ok" or h.cmd("start") != "ok" or not h.wait_quiescent(30):
+            ctx.viol("hang:rebound", {**where, "snapshot": h.snapshot()})
+            return
+        ctx.count("stop_and_rebound_from_a_handler")
+        times = [c for _, c in h.trace()]
+        if res.get("stop") != "ok":
+            ctx.viol(f"stop-of-a-running-simulator-refused:{res.get('stop')}", where)
+            return
+        if res.get("rerun") == "ok":
+            # accepted: from here on this IS a run up to the new bound - nothing at or beyond it runs (at it only for the
+            # inclusive form), the clock ends at the bound and the replication stays resumable
+            limit = case["bound"]
+            late = [t for t in times if t > limit or (t == limit and name == "run_up_to")]
+            snap = h.snapshot()
+            if late or snap["clock"] != limit or snap["run_state"] != "STOPPED" or snap["replication_state"] != "STARTED":
+                ctx.viol("accepted-bounded-run-ran-past-its-bound", {**where, "executed_times": times, "snapshot": snap})
+                return
+        else:
+            # refused (the run was still stopping): then the stop stands - nothing after the handler's own event
+            if res.get("rerun") != "DSOLError" or any(t > case["at"] for t in times):
+                ctx.viol("refused-rebound-changed-the-run", {**where, "outcome": res.get("rerun"), "executed_times": times})
+                return
+        ctx.seen("rebound_outcomes", f"{name}:{res.get('rerun')}")
+        if h.cmd("start") != "ok" or not h.wait_quiescent(30):
+            ctx.viol("not-resumable-after-a-bounded-run", {**where, "snapshot": h.snapshot()})
+            return
+        if [c for _, c in h.trace()] != list(range(1, 11)):
+            ctx.viol("segment:rebound:events-lost-or-repeated", {**where, "executed_times": [c for _, c in h.trace()]})
+            return
+        ctx.nontrivial = True
+    finally:
+        h.cleanup()
+
+
 def run_case(case, ctx):
     from vlib.simharness import Harness, compare_traces, check_clock_monotone
     from vlib.refdevs import Ref, tnum, WARMUP
+    if case.get("fam") == "rebound":
+        return _rebound(case, ctx)
     prog, sched = case["prog"], case["sched"]
     ref = Ref(prog)
     ref.initialize()
